@@ -346,3 +346,19 @@ class Extractor:
         text = s[i:end]
         self._record(rel, "match-arm", pattern_regex, i, end, text, ["D6"])
         return text
+
+    def fn_in_impls(self, rel, header_regex, name):
+        """`fn name` defined in exactly one of the (possibly several) impl blocks matching the header."""
+        s = self.src(rel)
+        found = []
+        for m in _code_positions(s, r"^[ \t]*(" + header_regex + r")"):
+            start = m.start(1)
+            ob = _body_open(s, start)
+            end = match_close(s, ob)
+            pat = r"^[ \t]*((?:pub(?:\([a-z:]+\))?\s+)?(?:const\s+)?(?:unsafe\s+)?fn\s+" + re.escape(name) + r")\b"
+            for fm in _code_positions(s, pat):
+                if ob <= fm.start() < end:
+                    found.append((ob, end))
+        if len(found) != 1:
+            raise AnchorLost(f"{rel}: fn {name} found {len(found)} times in impls `{header_regex}` (need exactly 1)")
+        return self.fn(rel, name, within=found[0])
